@@ -24,6 +24,11 @@ package main
 // target ops, executed in order after database.ExportHeaders of the source:
 //   kset r c v | kdelcol r c | kaddcol r v | kallcols n | kdelrow r | kduprow r | kaddrow v,v,.. | ktrunc n |
 //   knohdr | kempty | knofile | kgarbage | kfix          edit the CSV records (r = data row, 0-based; ~ = empty, ^ = space)
+//   kraw r c <kind>     edit the TEXT of the csv line of data row r after it was written (things special to a csv reader):
+//                       hash qlead qmid qtrail qpair quoted qq comma qcomma cr qlf bom tblank lblank ttab nul  (field c)
+//                       emptyline blankline commas crlf hashline                                              (whole line)
+//   c <opt,opt>         p2p options of the configuration the target is started with: dc = disable_checkpoints, ex = experimental
+//                       (the import and its validation do not depend on them)
 //   p <height> g|b      newest checkpoint at <height> with the exported chain's hash (g) or another hash (b); default: tip, good
 //   tg | tc             the target database already holds genesis / a copy of the source store (default: empty)
 //   i | iu              a start (database.Init) on the target database with prepared_db = true | false
@@ -31,6 +36,11 @@ package main
 // derived (emitted by the harness, everything the model needs):
 //   b=<batch size from the code> G=<genesis row> P=<ck height>,<hash id> S=<source table, rowid order> T=<target table before the first start>
 //   H=<finite map of the real header hasher: ver,previd,merkle,ts,bits,nonce>id>
+//   F=<file of start 1>@<file of start 2>..   the records of the prepared file of each start as encoding/csv in its DEFAULT
+//     configuration reads the bytes on disk (the reference reading: the importer's reader must not be configured to see anything
+//     else); a reader error is the one-field record !csv-error (the import stops there like on any malformed row).
+//     * = the exported file unchanged, ! = no readable file, d<n>/<i>:<record>/.. = n records, those differ from the export,
+//     f/<record>/.. = all records; fields %XX-escaped, joined by ',', records by '/' 
 // rows: hashid,previd,height,version,merkle,ts,bits,nonce,work,cum,state(L|S|O|R) joined by '/'
 //
 // observable:  X=<exported records>|I=<ok|err>:<target table after the start>|I=...
@@ -696,6 +706,201 @@ func c17FlipHash(h string) string {
 	return string(b)
 }
 
+type c17Raw struct {
+	row, col int
+	kind     string
+}
+
+func c17EncField(f string) string {
+	if f == "" {
+		return ""
+	}
+	if strings.ContainsAny(f, "\",\r\n") || f[0] == ' ' || f[0] == '\t' || f == `\.` {
+		return `"` + strings.ReplaceAll(f, `"`, `""`) + `"`
+	}
+	return f
+}
+
+// c17Text serialises the records and then applies the raw edits to the text.
+func c17Text(recs [][]string, raws []c17Raw) []byte {
+	lines := make([][]string, len(recs)) // encoded fields per line
+	for i, r := range recs {
+		for _, f := range r {
+			lines[i] = append(lines[i], c17EncField(f))
+		}
+	}
+	text := make([]string, len(recs))
+	after := map[int][]string{}
+	whole := map[int]string{}
+	suffix := map[int]string{}
+	for _, e := range raws {
+		i := e.row + 1
+		if i < 1 || i >= len(lines) {
+			continue
+		}
+		switch e.kind {
+		case "emptyline":
+			after[i] = append(after[i], "")
+			continue
+		case "hashline":
+			after[i] = append(after[i], "# exported by the operator")
+			continue
+		case "blankline":
+			after[i] = append(after[i], "   ")
+			continue
+		case "commas":
+			whole[i] = ",,,,"
+			continue
+		case "crlf":
+			suffix[i] = "\r"
+			continue
+		}
+		if e.col < 0 || e.col >= len(lines[i]) {
+			continue
+		}
+		f := lines[i][e.col]
+		h, t := f, ""
+		if len(f) > 0 {
+			h, t = f[:1], f[1:]
+		}
+		switch e.kind {
+		case "hash":
+			f = "#" + f
+		case "qlead":
+			f = `"` + f
+		case "qmid":
+			f = h + `"` + t
+		case "qtrail":
+			f = f + `"`
+		case "qpair":
+			f = `""`
+		case "quoted":
+			f = `"` + f + `"`
+		case "qq":
+			f = `"` + h + `""` + t + `"`
+		case "comma":
+			f = h + "," + t
+		case "qcomma":
+			f = `"` + h + "," + t + `"`
+		case "cr":
+			f = h + "\r" + t
+		case "qlf":
+			f = `"` + h + "\n" + t + `"`
+		case "bom":
+			f = "\xef\xbb\xbf" + f
+		case "tblank":
+			f = f + " "
+		case "lblank":
+			f = " " + f
+		case "ttab":
+			f = f + "\t"
+		case "nul":
+			f = h + "\x00" + t
+		}
+		lines[i][e.col] = f
+	}
+	var sb strings.Builder
+	for i := range lines {
+		text[i] = strings.Join(lines[i], ",")
+		if w, ok := whole[i]; ok {
+			text[i] = w
+		}
+		sb.WriteString(text[i] + suffix[i] + "\n")
+		for _, a := range after[i] {
+			sb.WriteString(a + "\n")
+		}
+	}
+	return []byte(sb.String())
+}
+
+// c17RefRead is the reference reading of a csv text: encoding/csv as csv.NewReader configures it, any number of
+// fields per record (the field count is the model's business); a reader error ends the list with !csv-error.
+func c17RefRead(text []byte) [][]string {
+	r := csv.NewReader(bytes.NewReader(text))
+	r.FieldsPerRecord = -1
+	var out [][]string
+	for {
+		rec, err := r.Read()
+		if err == io.EOF {
+			return out
+		}
+		if err != nil {
+			return append(out, []string{"!csv-error"})
+		}
+		out = append(out, rec)
+	}
+}
+
+func c17Pct(f string) string {
+	var sb strings.Builder
+	for i := 0; i < len(f); i++ {
+		ch := f[i]
+		if ch >= 'a' && ch <= 'z' || ch >= 'A' && ch <= 'Z' || ch >= '0' && ch <= '9' || ch == '.' || ch == '_' || ch == '+' || ch == '-' {
+			sb.WriteByte(ch)
+		} else {
+			fmt.Fprintf(&sb, "%%%02X", ch)
+		}
+	}
+	return sb.String()
+}
+
+func c17PctRec(r []string) string {
+	p := make([]string, len(r))
+	for i, f := range r {
+		p[i] = c17Pct(f)
+	}
+	return strings.Join(p, ",")
+}
+
+// c17FileSpec encodes the reference records relative to the exported file.
+func c17FileSpec(ref, good [][]string) string {
+	same := func(a, b []string) bool {
+		if len(a) != len(b) {
+			return false
+		}
+		for i := range a {
+			if a[i] != b[i] {
+				return false
+			}
+		}
+		return true
+	}
+	if good != nil && len(ref) == len(good) {
+		var diffs []string
+		for i := range ref {
+			if !same(ref[i], good[i]) {
+				diffs = append(diffs, fmt.Sprintf("%d:%s", i, c17PctRec(ref[i])))
+			}
+		}
+		if len(diffs) == 0 {
+			return "*"
+		}
+		if len(diffs) <= 16 {
+			return fmt.Sprintf("d%d/%s", len(ref), strings.Join(diffs, "/"))
+		}
+	}
+	parts := []string{"f"}
+	for _, r := range ref {
+		parts = append(parts, c17PctRec(r))
+	}
+	return strings.Join(parts, "/")
+}
+
+func c17WriteGzBytes(path string, text []byte) error {
+	f, err := os.Create(path)
+	if err != nil {
+		return err
+	}
+	zw := gzip.NewWriter(f)
+	if _, err := zw.Write(text); err != nil {
+		return err
+	}
+	if err := zw.Close(); err != nil {
+		return err
+	}
+	return f.Close()
+}
+
 // runCase executes one operation list and records the case.
 func (h *c17H) runCase(ops []string, class string) error {
 	var srcOps, tgtOps []string
@@ -754,6 +959,9 @@ func (h *c17H) runCase(ops []string, class string) error {
 	}
 	tInit := "-"
 	started := false
+	var raws []c17Raw
+	var fspecs []string
+	optDC, optEX := false, false
 	var obs []string
 	obs = append(obs, src.xobs)
 	var outOps []string
@@ -840,6 +1048,22 @@ func (h *c17H) runCase(ops []string, class string) error {
 			if src.good != nil {
 				file = clone(src.good)
 				fileState = "ok"
+				raws = nil
+			}
+		case "kraw":
+			raws = append(raws, c17Raw{row: num(1), col: num(2), kind: arg(3)})
+		case "c":
+			if started {
+				keep = false
+				break
+			}
+			for _, o := range strings.Split(arg(1), ",") {
+				switch o {
+				case "dc":
+					optDC = true
+				case "ex":
+					optEX = true
+				}
 			}
 		case "p":
 			hgt := num(1)
@@ -883,12 +1107,18 @@ func (h *c17H) runCase(ops []string, class string) error {
 			_ = os.Remove(gz)
 			switch fileState {
 			case "ok":
-				if err := c17WriteGz(gz, file); err != nil {
+				text := c17Text(file, raws)
+				if err := c17WriteGzBytes(gz, text); err != nil {
 					return err
 				}
-				hm.addFile(file)
+				ref := c17RefRead(text)
+				hm.addFile(ref)
+				fspecs = append(fspecs, c17FileSpec(ref, src.good))
 			case "garbage":
 				_ = os.WriteFile(gz, []byte("this is not a gzip stream\n1,2,3,4,5\n"), 0o644)
+				fspecs = append(fspecs, "!")
+			default:
+				fspecs = append(fspecs, "!")
 			}
 			ck, herr := chainhash.NewHashFromStr(ckHash)
 			if herr != nil {
@@ -898,7 +1128,12 @@ func (h *c17H) runCase(ops []string, class string) error {
 			config.Checkpoints = []chaincfg.Checkpoint{{Height: 0, Hash: &decoy}, {Height: ckH, Hash: ck}}
 			var st *Stack
 			err := c17Guard(func() error {
-				s, e := NewStack(StackOpts{Dir: tdir, PreparedDb: prepared, PreparedPath: rel})
+				s, e := NewStack(StackOpts{Dir: tdir, PreparedDb: prepared, PreparedPath: rel, Mutate: func(cfg *config.AppConfig) {
+					if cfg.P2P != nil {
+						cfg.P2P.DisableCheckpoints = optDC
+						cfg.P2P.Experimental = optEX
+					}
+				}})
 				st = s
 				return e
 			})
@@ -921,7 +1156,11 @@ func (h *c17H) runCase(ops []string, class string) error {
 		}
 	}
 	gRow := ids.rows(genesis)
-	derived := fmt.Sprintf("D b=%d G=%s P=%d,%d S=%s T=%s H=%s", database.VerifSQLiteBatchSize, gRow, ckH, ids.id(ckHash), sRows, tInit,
+	fl := "-"
+	if len(fspecs) > 0 {
+		fl = strings.Join(fspecs, "@")
+	}
+	derived := fmt.Sprintf("D b=%d G=%s P=%d,%d S=%s T=%s F=%s H=%s", database.VerifSQLiteBatchSize, gRow, ckH, ids.id(ckHash), sRows, tInit, fl,
 		strings.Join(hm.ents, "/"))
 	if len(hm.ents) == 0 {
 		derived += "-"
